@@ -78,6 +78,8 @@ def _walk_own(fnode):
     while stack:
         n = stack.pop()
         yield n
+        if isinstance(n, (ast.FunctionDef, ast.Lambda, ast.AsyncFunctionDef)):
+            continue    # a nested definition at the top level of the body: its `yield`s are its own
         for c in ast.iter_child_nodes(n):
             if not isinstance(c, (ast.FunctionDef, ast.Lambda, ast.AsyncFunctionDef)):
                 stack.append(c)
@@ -88,10 +90,11 @@ class GenProxy:
     that hands its values over one at a time, so that side effects between two yields happen when the consumer asks for
     the next value -- as in Python"""
 
-    def __init__(self, interp, f, args, kwargs):
+    def __init__(self, interp, f, args, kwargs, closure=None):
         import queue
         import threading
         self.interp, self.f, self.args, self.kwargs = interp, f, args, kwargs
+        self.closure = closure      # a nested generator function (a Closure) instead of a FuncInfo
         self.q_out, self.q_in = queue.Queue(), queue.Queue()
         self.thread = None
         self.done = False
@@ -108,7 +111,10 @@ class GenProxy:
         sub._yield_hook = hook
         try:
             self.q_in.get()
-            sub._call(self.f, self.args, self.kwargs)
+            if self.closure is not None:
+                sub._call_closure(self.closure, self.args, self.kwargs)
+            else:
+                sub._call(self.f, self.args, self.kwargs)
             self.q_out.put(('end', None))
         except _Stop:
             self.q_out.put(('end', None))
@@ -645,6 +651,10 @@ class Interp:
                         names.append(k0)
                     else:
                         raise Unsupported('isinstance in a finite model')
+                gc0 = getattr(args[0], '_gt_cls', None)
+                if gc0 is not None and not isinstance(args[0], Obj):
+                    # a model value that is a python string AND carries the repository class it stands for (Variable / Terminal)
+                    return any((n0 == gc0) if isinstance(n0, str) else isinstance(args[0], n0) for n0 in names)
                 if isinstance(args[0], Obj):
                     sup = getattr(self, 'superclasses', {}).get(args[0]._cls, ())
                     return any(isinstance(n0, str) and (n0 == args[0]._cls or n0 in sup) for n0 in names)
@@ -730,6 +740,11 @@ class Interp:
         raise Raised(name)
 
     def call_closure(self, cl, args, kwargs):
+        if any(isinstance(n, (ast.Yield, ast.YieldFrom)) for n in _walk_own(cl.node)):
+            return GenProxy(self, cl.f, list(args), dict(kwargs or {}), closure=cl)
+        return self._call_closure(cl, args, kwargs)
+
+    def _call_closure(self, cl, args, kwargs):
         node = cl.node
         names = [x.arg for x in node.args.args]
         env = dict(cl.env)
